@@ -162,6 +162,7 @@ type outcome struct {
 	queueAtReq int
 	hang       string
 	elapsed    time.Duration
+	extra      []finding // findings of the stream itself (jsonformat.go), added to the oracle's
 }
 
 const longTimeout = 60 * time.Second
@@ -448,6 +449,8 @@ func execute(sc Scenario) outcome {
 		return runForced(sc)
 	case "timeout":
 		return runTimeout(sc)
+	case "json":
+		return runJSON(sc)
 	}
 	return runRandom(sc)
 }
@@ -623,6 +626,7 @@ func genScenarios(o *common.Opts, rng *rand.Rand) []Scenario {
 			Writers: 1 + rng.Intn(4), FlushAfter: rng.Intn(g*per + 1), Linger: []int{0, 5, 50}[rng.Intn(3)],
 			SlowWrite: []int{0, 0, 3}[rng.Intn(3)], MaxLen: 400, Model: false})
 	}
+	scs = append(scs, genJSONScenarios(rng, o.Thorough())...)
 	// timeout
 	for i := 0; i < 3*mul; i++ {
 		scs = append(scs, Scenario{Kind: "timeout", Seed: rng.Int63(), Cap: 8, Goroutines: 1 + rng.Intn(2), PerG: 1 + rng.Intn(4),
@@ -755,7 +759,9 @@ func main() {
 			res.Note("aborted after a hang; %d scenarios not executed", len(scs)-len(runs)-1)
 			break
 		}
-		runs = append(runs, executed{sc: sc, out: out, v: oracle(out.evs, out.completed)})
+		v := oracle(out.evs, out.completed)
+		v.findings = append(append([]finding(nil), out.extra...), v.findings...)
+		runs = append(runs, executed{sc: sc, out: out, v: v})
 	}
 
 	// model: every history through `admits` of the variant the tree is expected to be, and of both variants
@@ -817,13 +823,19 @@ func main() {
 		}
 		// oracle findings
 		rep := sc
-		if rep.Kind == "forced" {
+		if rep.Kind == "json" {
+			rep.Repeat = 3
+		} else if rep.Kind == "forced" {
 			rep.Repeat = 40
 		} else {
 			rep.Repeat = 200
 		}
 		for _, f := range r.v.findings {
-			res.Violate(common.Violation{Signature: "C20:" + f.class + ":flushLog", What: f.what,
+			sig := "C20:" + f.class + ":flushLog"
+			if strings.Contains(f.class, ":") {
+				sig = "C20:" + f.class // the finding names its own locus
+			}
+			res.Violate(common.Violation{Signature: sig, What: f.what,
 				Case: common.Case{Stream: "logger", Op: rep, Model: modelRes, Impl: implRes + " history: " + key}})
 		}
 		if !r.out.completed && r.out.flushTook < r.out.timeout {
@@ -877,7 +889,7 @@ func main() {
 	res.Note("tree variant seen by the extractor: %s; executed %d scenarios; runs that lost an entry: %d; forced runs completed: %d", treeVariant, len(runs), lostRuns, forcedCompleted)
 	res.Rule = "cases = one FlushLogger per scenario (forced D4 schedule for every capacity 1,2,3,5,8 × every occupancy, and the default capacity; " +
 		"random: 1..32 goroutines × entries × writers × capacity × slow writer × flusher lingering between its selects, flush after a random number of returned calls; " +
-		"timeout: blocked writer; real writers: RollFileWriter with two rotations at 1 MB / a rotation per write / a single file, DateWriter by day and by hour with a forced hour change, files read back; panic exit: child processes log 1..2000 entries through writers of different speeds and panic in five ways under defer tars.CheckPanic()); observable = history of log-call/log-return/Write(writer,bytes)/FlushLogger call/return events; " +
+		"timeout: blocked writer; real writers: RollFileWriter with two rotations at 1 MB / a rotation per write / a single file, DateWriter by day and by hour with a forced hour change, files read back; JSON format: bursts built by writeJson while the flusher is held, every Write decoded; panic exit: child processes log 1..2000 entries through writers of different speeds and panic in five ways under defer tars.CheckPanic()); observable = history of log-call/log-return/Write(writer,bytes)/FlushLogger call/return events; " +
 		"non-trivial = distinct histories with at least one logging call"
 	if err := res.Write(o.Out); err != nil {
 		panic(err)
